@@ -126,7 +126,7 @@ func (c *c11p) genRandom(seed int64, base, n int) {
 		c.setSchema(s)
 		for k := 0; k < 3; k++ {
 			m := randMsgPB(r, c.src.rroot, 0, pbGenCfg{maxStr: 400})
-			pc := PCutCase{B: B(refMarshal(m))}
+			pc := PCutCase{B: B(refMarshalAnyOrder(r, m))}
 			if k > 0 {
 				for mn, fs := range s.Msgs {
 					for _, f := range fs {
